@@ -34,6 +34,12 @@ CFG = {
         "Swat4.C08.best_response_max",
         "Swat4.C08.best_response_none",
         "Swat4.C08.best_response_perm",
+        "Swat4.C08.collect_perm",
+        "Swat4.C08.collect_dup",
+        "Swat4.C08.collect_complete_iff",
+        "Swat4.C08.collect_complete_all_arrived",
+        "Swat4.C08.parse_render",
+        "Swat4.C08.parse_concat",
     ],
     "shards": (8, 16),
     "nontrivial": _c08_nontrivial,
